@@ -42,7 +42,7 @@ def run(ctx):
         scenarios.append(af.with_frontends(sc, i) if i % 2 == 0 else sc)
     # many overlapping logins with different expected answers on one interface / one listener: nobody gets another one's answer
     for i in range(3 if not thorough else 10):
-        sc = load_scenario("login-storm-%d" % i, "", ctx.seed * 517 + i, clients=24, calls=30 if not thorough else 120, kinds=["auth"])
+        sc = load_scenario("login-storm-%d" % i, "", ctx.seed * 517 + i, clients=24, calls=30 if not thorough else 60, kinds=["auth"])
         scenarios.append(af.with_frontends(sc, 100 + i) if i % 3 == 2 else sc)
     results, events = af.run_scenarios(ctx, scenarios, "c11")
     nval = af.judge(ctx, scenarios, results, events, "c11", "C11")
